@@ -486,7 +486,7 @@ def check(prop, tier):
             for lab, floor in st.get("label_floors", {}).items():
                 if m["labels"].get(lab, 0) < floor:
                     selftest_fail.append("stage %s: label %s seen %d times (< %d)" % (st["name"], lab, m["labels"].get(lab, 0), floor))
-            if m["distinct_nontrivial"] < st.get("nontrivial_floor", 2) and not fails:
+            if st.get("nontrivial_floor", 2) > 0 and m["distinct_nontrivial"] < st.get("nontrivial_floor", 2) and not fails:
                 selftest_fail.append("stage %s: %d distinct non-trivial cases (< %d)" % (st["name"], m["distinct_nontrivial"], st.get("nontrivial_floor", 2)))
         for k, n in sorted(merged_all["inconclusive"].items()):
             kind, reason = k.split(":", 1)
@@ -606,7 +606,13 @@ def triage(binary, prop, st, fl):
             # the breadcrumb case passes in isolation: the crash depended on earlier cases (state leak)
             if any(r["json"] and r["json"]["reportable"] for r in results):
                 return ("violation", path, describe(results[0]))
-            return ("flaky", "worker died (rc=%s) but the breadcrumb case %s passes in isolation" % (fl.get("rc"), path))
+            tail = ""
+            try:
+                wid = os.path.basename(path).split(".")[0]
+                tail = open(os.path.join(os.path.dirname(path), wid + ".stderr"), errors="replace").read()[-1500:].replace("\n", " | ")
+            except OSError:
+                pass
+            return ("flaky", "worker died (rc=%s) but the breadcrumb case %s passes in isolation; worker stderr: %s" % (fl.get("rc"), path, tail))
         sig = results[0]["sig"]
         # crashes belong to C07 and to the property that owns the operation in flight
         if not crash_is_for(prop, sig):
